@@ -61,6 +61,8 @@ func strUQOps() []*Stmt {
 		upd(asg(1, Lit(N())), wh(0, "=", I(1))),
 		upd(asg(1, Concat(1, "c")), wh(0, "=", I(1))),
 		updOL(asg(1, Lit(S("abc"))), 0, false),
+		// moves the row to another primary key and rewrites the unique column in the same statement
+		upd([]Assign{{0, Lit(I(3))}, {1, Lit(S("A"))}}, wh(0, "=", I(2))),
 		del(wh(1, "=", S("a"))), del(wh(0, "=", I(1))), del(nil), del(wh(1, "isnull", N())),
 	)
 	return ops
@@ -89,6 +91,7 @@ func nullUQOps() []*Stmt {
 		upd([]Assign{{1, Lit(n)}, {2, Lit(n)}}, nil),
 		Upd(T, asg(2, Plus(2, 1)), nil, 2, true, -1),
 		upd([]Assign{{1, Lit(I(1))}, {2, Lit(I(1))}}, wh(0, "=", I(2))),
+		upd([]Assign{{0, Lit(I(3))}, {1, Lit(I(1))}, {2, Lit(I(1))}}, wh(0, "=", I(2))),
 		del(nil), del(wh(0, "=", I(1))), del(wh(2, "isnull", n)),
 	)
 	return ops
@@ -135,6 +138,7 @@ func decUQOps() []*Stmt {
 		upd(asg(1, Lit(D(100, 2))), wh(0, "=", I(2))),
 		upd(asg(1, Lit(D(1005, 3))), nil),
 		upd(asg(1, Lit(N())), wh(0, "=", I(1))),
+		upd([]Assign{{0, Lit(I(3))}, {1, Lit(D(100, 2))}}, wh(0, "=", I(2))),
 		del(wh(1, "=", D(10, 1))), del(wh(0, "=", I(1))), del(nil),
 	)
 	return ops
